@@ -224,14 +224,14 @@ inline int main(int argc, char ** argv, const std::vector<Sub> & subs)
     if (!valid) {fprintf(stderr, "no committed case\n"); return 4;}
     std::string subName(bin.data() + 8, strnlen(bin.data() + 8, 64));
     Tape t;
-    const size_t rec = 72;
+    const size_t rec = kCaseNameBytes + 24;
     for (uint32_t k = 0; k < n && 72 + (k + 1) * rec <= bin.size(); ++k) {
       const char * p = bin.data() + 72 + k * rec;
       Entry e;
-      e.name = intern(std::string(p, strnlen(p, 48)));
-      e.kind = p[48];
-      memcpy(&e.i, p + 56, 8);
-      memcpy(&e.d, p + 64, 8);
+      e.name = intern(std::string(p, strnlen(p, kCaseNameBytes)));
+      e.kind = p[kCaseNameBytes];
+      memcpy(&e.i, p + kCaseNameBytes + 8, 8);
+      memcpy(&e.d, p + kCaseNameBytes + 16, 8);
       t.push_back(e);
     }
     printf("{\"sub\":\"%s\",\"tape\":%s}\n", jsonEscape(subName).c_str(), tapeJson(t).c_str());
